@@ -121,6 +121,15 @@ bool index_read(zckCtx *zck, char *data, size_t size, size_t max_length) {
                             count);
             return false;
         }
+        /* Chunk offsets are running sums of the stored sizes; refuse an index
+         * whose offsets would wrap around instead of reporting wrong ones */
+        if(chunk_length > SIZE_MAX - idx_loc ||
+           idx_loc + chunk_length > SIZE_MAX - (zck->lead_size +
+                                                zck->header_length)) {
+            set_fatal_error(zck, "Integer overflow in chunk %i's offset",
+                            count);
+            return false;
+        }
         new->start = idx_loc;
         new->comp_length = chunk_length;
 
